@@ -64,6 +64,34 @@ def cases(draw, tier):
             "np_args": draw(st.sampled_from([False, False, False, True]))}
 
 
+@st.composite
+def long_cases(draw, tier):
+    """Long strands: clean walks of 300..4,000 nt and walks of 6,000..9,000 nt carrying hundreds of separated
+    substitutions (candidate product beyond 2**1024, so the give-up path runs), each under every kind of check."""
+    k = draw(st.sampled_from([2, 2, 3]))
+    rng = random.Random(draw(st.integers(0, 2 ** 32 - 1)))
+    rows = [rng.choice([7, 11, 13, 14, 3, 5, 6, 9, 10, 12]) for _ in range(4 ** k)]
+    start = rng.randrange(4 ** k)
+    giant = draw(st.booleans())
+    length = draw(st.integers(6000, 9000 if tier == "quick" else 14000)) if giant else draw(st.integers(300, 4000))
+    table, v, out = o.succ_table(k), start, []
+    for _ in range(length):
+        j = rng.choice([j for j in range(4) if (rows[v] >> j) & 1])
+        out.append(o.NUC[j])
+        v = table[v][j]
+    walk = "".join(out)
+    if giant:
+        pos, step = k + rng.randrange(3), rng.choice([3 * k + 2, 3 * k + 3])
+        while pos < len(out) - 2 * k:
+            out[pos] = rng.choice([c for c in "ACGT" if c != out[pos]])
+            pos += step + rng.randrange(2)
+    return {"graph": {"k": k, "rows": rows, "start": start}, "walk": walk, "text": "".join(out),
+            "check_kind": draw(st.sampled_from(["none", "of_text", "of_text", "of_walk", "wrong"])),
+            "check_len": draw(st.integers(1, 8)), "indel": draw(st.booleans()),
+            "heap": draw(st.sampled_from([1, 1000, 1000, 10 ** 4])), "salt": draw(st.integers(0, 2 ** 16)),
+            "layout": None, "np_start": False, "np_args": False, "long": "giant" if giant else "clean"}
+
+
 def evaluate(case):
     graph = case["graph"]
     rows, k, start = graph["rows"], graph["k"], graph["start"]
@@ -94,8 +122,11 @@ def evaluate(case):
                                               np_args=bool(case.get("np_args")))
     if case.get("layout"):
         labels.append("layout:" + case["layout"])
+    if case.get("long"):
+        labels.append("long:" + case["long"])
+    shown = text if len(text) <= 120 else text[:80] + "..[%d nt]" % len(text)
     what = "repair_dna(%r, k=%d, start=%d, check=%r, has_indel=%s, heap_size=%g)" \
-           % (text, k, start, check, case["indel"], heap)
+           % (shown, k, start, check, case["indel"], heap)
     if isinstance(result, str):
         return discard("did_not_return_within_budget", labels)
     if isinstance(result, Raised):
@@ -107,7 +138,9 @@ def evaluate(case):
         matches = check is None or (len(check) > 0 and o.ref_vt(text, len(check)) == check)
         want = [text] if matches else []
         if candidates != want:
-            return bad("%s: the strand is already a walk, expected %r, got %r" % (what, want, candidates[:6]), labels)
+            return bad("%s: the strand is already a walk, expected %s, got %r"
+                       % (what, "[the strand]" if want else "[]", [c if len(c) <= 120 else c[:60] + ".." for c in
+                                                                  candidates[:6]]), labels)
         if statistics[0] != 0:
             return bad("%s: clean strand but %r detected errors reported" % (what, statistics[0]), labels)
         if not matches:
@@ -148,6 +181,13 @@ SUBCHECKS = [
              floors={"clean_wrong_check": 100, "fallback_with_check": 100, "multi_candidates": 200,
                      "candidates_of_different_length": 60, "multi_site_product": 60, "walk": 800, "k=8": 40,
                      "check:empty": 200, "second_call_longer_check": 200, "heap=inf": 100}, rule=RULE, timeout=300.0),
+    SubCheck("long_strands", evaluate, strategy=long_cases, examples=(96, 960), shards=(16, 16),
+             floors={"long:giant": 25, "long:clean": 25, "clean_wrong_check": 4, "fallback_with_check": 10},
+             timeout=300.0,
+             rule="Order-2/3 graphs with out-degree 2..3: clean walks of 300..4,000 nt, and walks of 6,000..9,000 "
+                  "(thorough 14,000) nt with 600+ separated substitutions whose candidate product exceeds 2**1024 "
+                  "(the give-up path), under no / right / original-walk / wrong checks of 1..8 symbols; same oracle "
+                  "as repair_contract. Non-trivial: as repair_contract."),
     SubCheck("fuzz_repair_contract", evaluate, fuzz=("C09", (4000, 250000)), shards=(2, 8),
              rule="atheris/libFuzzer campaign: bytes are decoded into (graph from a pool of 64 arc subsets, start "
                   "vertex, string, options) and judged by the same oracle as the Hypothesis sub-check; coverage "
